@@ -1,4 +1,4 @@
-//@@ unit c13_tools properties=C13
+//@@ unit c13_tools properties=C13,C14 bounded=write_tool.changes_no_file_but_the_one_its_automatic_checkpoint_covers
 #![allow(unused_imports, dead_code, unused_variables, unused_mut)]
 use vstd::prelude::*;
 
